@@ -467,6 +467,8 @@ def selftest(chk):
     # command 1 times out
     tmo = run_connection(spec, [["lost"], ["lost"]], default=["ok", [OK, 1]])
     fat = run_connection(spec, [["fatal", [0x88, 1]]], default=["ok", [OK, 1]])
+    two = run_connection(dict(t0=t0, tries=2, seqmod=4, bursts=[dict(n=2, window=2, extra=[0, 0])]), [],
+                         default=["ok", [OK, 1]])
     one = run_connection(dict(t0=t0, tries=2, seqmod=4, bursts=[dict(n=1, window=1, extra=[0])]), [],
                          default=["ok", [OK, 1]])
 
@@ -491,7 +493,7 @@ def selftest(chk):
     nol = run_connection(nol_spec, nol_fates, default=["lost"], lifetime=False)
     withl = run_connection(nol_spec, nol_fates, default=["lost"], lifetime=True)
     cases = [
-        (good, None), (tmo, None), (fat, None), (withl, None), (one, None),
+        (good, None), (tmo, None), (fat, None), (withl, None), (one, None), (two, None),
         (nol, "RightReply"),
         (mut(good, lambda ev: ev[s2].__setitem__(4, ev[s2][4] - 2)), "NoEarlyRetransmit"),       # corrupt a time
         (mut(good, lambda ev: ev[c1].__setitem__(3, 2)), "RightReply"),                            # corrupt the reply id
@@ -510,7 +512,7 @@ def selftest(chk):
         (mut(one, lambda ev: ev[idx(ev, "recv", 0)].__setitem__(2, BUSY)), "CallbackHasReply"),    # busy taken as success
         (mut(one, lambda ev: (ev[idx(ev, "recv", 0)].__setitem__(2, BUSY),
                               ev[idx(ev, "callback", 0)].__setitem__(4, BUSY))), "RightReply"),
-        (mut(good, lambda ev: ev[s3].__setitem__(1, ev[s3][1] + 4)), "SeqInRange"),
+        (mut(two, lambda ev: ev[idx(ev, "send", 1)].__setitem__(1, ev[idx(ev, "send", 0)][1])), "SeqNotOutstanding"),
     ]
     rej = chk.validate("ScpTrace", "ScpTrace.cfg", [c[0] for c in cases], workers=2)
     got = {id(t): cl for t, _, cl in rej}
@@ -524,4 +526,4 @@ def selftest(chk):
     if r.ok or "RightReply" not in (r.error or ""):
         msgs.append("ScpDesign_nolifetime did not violate RightReply")
     return not msgs, "; ".join(msgs) or ("%d corrupted traces rejected with the expected clauses; design without "
-                                         "the lifetime assumption refuted" % (len(cases) - 5))
+                                         "the lifetime assumption refuted" % (len(cases) - 6))
